@@ -67,6 +67,7 @@ class ProgGen:
         self.list_vars = {}
         self.units = {}      # name -> dim
         self.dims = {}       # derived dimension name -> dim vector
+        self.ans_dim = None  # dimension of the last expression statement of this program (what `ans` / `_` hold)
         self.allow_inexact = allow_inexact
         self.const_eval_edges = const_eval_edges
         # units by exact dimension vector
@@ -360,6 +361,8 @@ class ProgGen:
     def statement(self, depth=2):
         """returns dict(kind, text, name, dim, expr: E or None)"""
         rng = self.rng
+        if self.ans_dim is not None and rng.random() < 0.22:
+            return self.ans_statement()
         r = rng.random()
         dim = self.random_dim()
         if r < 0.30:
@@ -432,7 +435,37 @@ class ProgGen:
             return {"kind": "print", "text": f"print({e.text})", "name": None, "dim": dim,
                     "sites": [(6 + s, 6 + e2, d) for s, e2, d in e.sites], "inexact": e.uses_float_inexact}
         e = self.expr(dim, depth)
+        self.ans_dim = dim
         return {"kind": "expr", "text": e.text, "name": None, "dim": dim, "sites": list(e.sites), "inexact": e.uses_float_inexact}
+
+    def ans_statement(self):
+        """a use of the last-result identifiers: `ans` / `_` have the type of the last expression statement, so
+        `ans + e` needs an `e` of that dimension (equality site: e) and `let x: T = ans` needs T to be it"""
+        rng = self.rng
+        dim = self.ans_dim
+        a = rng.choice(["ans", "_"])
+        e = self.expr(dim, 1)
+        op = rng.choice(["+", "-"])
+        head, tail = (f"{a} {op} ", "") if rng.random() < 0.6 else ("", f" {op} {a}")
+        form = rng.random()
+        if form < 0.4:
+            name = self.fresh("pa")
+            ann = rng.random() < 0.4
+            pre = f"let {name}: {self.type_name(dim)} = " if ann else f"let {name} = "
+            self.vars[name] = dim
+            kind = "let"
+        elif form < 0.55:
+            name, pre, kind = None, "print(", "print"
+        else:
+            name, pre, kind = None, "", "expr"
+        off = len(pre) + len(head)
+        text = pre + head + e.text + tail + (")" if kind == "print" else "")
+        sites = [(off + s, off + e2, d) for s, e2, d in e.sites] + [(off, off + len(e.text), dim)]
+        out = {"kind": kind, "text": text, "name": name, "dim": dim, "sites": sites, "inexact": e.uses_float_inexact,
+               "uses_ans": True}
+        if kind == "let":
+            out["annotated"] = ann
+        return out
 
     def type_name(self, dim):
         """annotation text: a registered dimension name of this vector, or the generic product form"""
